@@ -62,8 +62,11 @@ def rnd_float_tok(rng, allow_nan=False) -> int:
             return t
 
 
-def rnd_pos_float(rng) -> float:
+def rnd_pos_float(rng, extreme=True) -> float:
+    """`extreme=False` for an SRR scan time: warm-up seconds = samples x scan time must stay finite"""
     r = rng.random()
+    if r < 0.03 and extreme:   # the ends of the positive range: smallest subnormal, smallest normal, largest finite, huge, tiny
+        return rng.choice([5e-324, 2.0 ** -1022, 1.7976931348623157e308, 1e300, 1e-300, 2.0 ** 52 + 1.0, 1.0 + 2.0 ** -52])
     if r < 0.3:
         return rng.choice([35.0, 140.0, 0.25, 1.0, 10.0, 0.1, 0.3, 1 / 3, 2.5, 1e-3, 7.0, 1e3])
     if r < 0.6:
@@ -115,6 +118,7 @@ def uint_dtype(dt: np.dtype) -> np.dtype:
 
 
 def build_layer(elements, shape, li, layout="C"):
+    elements = [{**e, "dtype": e["dtypes"][li]} if "dtypes" in e else e for e in elements]   # per-layer dtypes (targeted only)
     dt = np.dtype([(e["name"], e["dtype"]) for e in elements])
     shape = tuple(shape)
     if layout == "F":
@@ -474,26 +478,45 @@ class C01(Prop):
     anchored = ["src/pewlib/io/npz.py", "src/pewlib/calibration.py", "src/pewlib/config.py", "src/pewlib/srr/config.py",
                 "src/pewlib/laser.py", "src/pewlib/srr/srr.py"]
     cases = {"quick": 600, "thorough": 12000}
-    rule = ("random Laser / spot / SRR lasers (equal-shape layers, shapes from 1x1, 1-8 elements with unicode names incl. tabs, "
-            "combining marks, non-BMP, >32 chars; 15 field dtypes; NaN payloads/inf/-0.0 data), calibrations with 0..6 points, "
+    rule = ("random Laser / spot / SRR lasers (equal-shape layers, shapes from 1x1, 3% up to 64x40; 1-8 elements with unicode names "
+            "incl. tabs, combining marks, non-BMP, >32 chars; 21 field dtypes incl. six non-native byte orders; C-ordered, "
+            "Fortran-ordered, strided and negative-stride images (a fifth of the lasers); NaN payloads/inf/-0.0 data), calibrations "
+            "with 0..6 (3%: 20-50) points, "
             "half-NaN rows, all seven built-in weightings and custom weights, differing lengths; lasers without any calibration "
             "point whose calibrations still carry unit / weighting (built-in, custom with no weights) / rsq / error, identity "
             "and fitted lines mixed (15% of the full-size cases); element names around separator characters (_ - . space : / "
             "| ...; a name continuing another element's name past the separator, names sharing the text before it; 25% of "
             "names, in every stream incl. the 0.6/0.7 files); info dicts incl. empty "
-            "keys/values and keys colliding after tab replacement, inexact config floats, warm-up, sub-pixel offsets; "
+            "keys/values, keys colliding after tab replacement, 20-40 entries, keys of 100-300 and values of 500-3000 characters; "
+            "inexact config floats, warm-up, sub-pixel offsets; "
+            "CALIBRATION DICT ORDER: in a third of the round-trip / layout / cross-class cases with >= 2 elements the calibration "
+            "dict lists the elements in another order than the data (entries popped and re-inserted, the dict reassigned in a "
+            "shuffled or reversed order, an entry replaced by a new calibration, the image replaced by one with reordered "
+            "fields, dict manipulation mixed with remove / add), every element carrying a calibration of its own, no two equal; "
+            "HISTORIES (19% of the cases + 200 targeted): constructor -> [calls] -> save+load -> calls -> save+load [-> again], "
+            "optionally going on with the loaded object; the calls are every public mutator: calibration dict (set, pop, "
+            "re-insert, reassign), in-place edits of a Calibration (intercept, gradient, unit, rsq, error, points, weighting, "
+            "custom weights), info (set, pop, reassign), config attributes, the warmup and subpixel_offsets setters, "
+            "set_equal_subpixel_offsets, a new config object, add / remove / rename (swaps included), the image replaced; "
+            "read-only accesses in between (to_array, subpixel_offsets, extent, get, weights); each save to the same or another "
+            "file, handed over as str or Path, names that np.savez completes with '.npz' ('', '.dat', '.NPZ', '.npz.npz'); "
+            "every load is judged against the specification of the state the MODEL tracked from the calls; "
             "real npz.save -> npz.load chains of length 1-4 and harness-written 0.6/0.7 layout files (current or legacy class "
             "names; declared versions with fewer / more components than 0.6.0, non-numeric tails beyond the compared "
-            "components, non-numeric compared components, older than 0.6.0); only the loaded object is observed. "
+            "components, non-numeric compared components, older than 0.6.0), half of them also loaded, re-saved with the "
+            "current save and loaded again; only the loaded object is observed. "
             "Compared with the model only (outside the quantifier, hyp=false): lasers without elements (save raises), files "
             "saved by npz.save whose header class name was replaced by another class / an unknown one (Config.from_array "
             "of an SRR array, SRRConfig.from_array of a raster array, ...), old-layout files declaring a version of another "
-            "generation. non-trivial = every case (each has >=1 named feature); distinct by canonical case hash")
+            "generation, SRR lasers with a non-native field (stacked native: known finding). "
+            "non-trivial = every case (each has >=1 named feature); distinct by canonical case hash")
     trusted = [
         "np.savez_compressed/np.load round-trip arrays bit-exactly; NumPy U storage strips trailing NULs and truncates to the field width",
         "harness/gen_npz.py writes the 0.6 / 0.7 layouts as the fixtures in tests/data/npz show them",
         "SRR warm-up: the float evaluation of round((n*scantime)/scantime) is one instance of the rounding function `fl` of theorem config_roundtrip (hypothesis hfl: each operation within relative error 2^-53; helper lemma warmup_robust in PewProofs/Npz.lean); the driver evaluates the exact instance fl = id",
-        "the abstract description of the laser handed to save is read from the real object (dict orders, SRRConfig._warmup/_subpixel_size/_subpixel_offsets)",
+        "round-trip / layout / cross-class streams: the abstract description of the freshly CONSTRUCTED laser is read from the real object (SRRConfig._warmup/_subpixel_size/_subpixel_offsets); every call made after construction (calibration-dict reordering, histories) is applied by the model, never read back",
+        "history stream: the initial state is the model's constructor (mkLaser, SRR.mk' evaluated exactly); a warm-up whose exact quotient seconds/scantime is within 2^-10 of a half-integer or above 2^40 is counted undetermined (theorems warmup_setter_robust, srr_constructor_robust: otherwise float and exact evaluation agree)",
+        "the file np.savez writes for a name that does not end in '.npz' is name + '.npz' (documented in npz.save); Path.stem / Path.resolve of the loaded path are computed by the harness with pathlib",
     ]
     assumptions = [
         "outside the quantifier (hyp=false: no specification, the implementation is compared with the model only): "
@@ -504,7 +527,9 @@ class C01(Prop):
         "counted as undetermined (the model answers `Unmodelled`): SRRConfig.from_array of a spot array or of a raster "
         "array whose scan time is zero / not finite",
         "info and calibration dicts are compared as mappings (sorted by key): Python dict equality ignores order",
-        "every generation of a chain is written to the same path (File Path is the path loaded from)",
+        "every generation of a chain is written to the same path (File Path is the path loaded from); histories also write to other paths",
+        "a call of a history that raises on the real object or that the model declines (only reachable by shrinking) makes the case undetermined; only the loads are judged",
+        "not generated (outside the quantifier): calibration dicts whose key set differs from the element names, custom weights that are not one-dimensional, images with zero rows, SRR layers of different dtypes (see notes/EC01.md), width 0 / empty offset lists",
     ]
 
     # ------------------------------------------------------------------ generator
@@ -654,7 +679,7 @@ class C01(Prop):
                     "scantime": core.tok(rnd_pos_float(rng))}
         if cls == "spot":
             return {"class": "spot", "spotsize": core.tok(rnd_pos_float(rng)), "spotsize_y": core.tok(rnd_pos_float(rng))}
-        scantime = rnd_pos_float(rng)
+        scantime = rnd_pos_float(rng, extreme=False)
         r = rng.random()
         if r < 0.2:
             warmup = 0.0
@@ -662,6 +687,8 @@ class C01(Prop):
             warmup = rng.randint(0, 200) * scantime
         else:
             warmup = rng.uniform(0, 60.0)
+        if not math.isfinite(warmup):   # 200 acquisitions of the largest finite scan time
+            warmup = 0.0
         k = nlayers if rng.random() < 0.7 else rng.randint(1, 5)
         offsets = []
         for _ in range(k):
@@ -811,6 +838,7 @@ class C01(Prop):
                 if w == "warmup":
                     s_ = st["scantime"]
                     v = rng.randint(0, 200) * s_ if rng.random() < 0.6 else rng.uniform(0, 60.0)
+                    v = v if math.isfinite(v) else 0.0
                     return [{"op": "cfg", "what": w, "value": t(v)}]
                 if w == "offsets":
                     offs = []
@@ -820,7 +848,7 @@ class C01(Prop):
                     return [{"op": "cfg", "what": w, "value": offs, "as_array": rng.random() < 0.5}]
                 if w == "equal_offsets":
                     return [{"op": "cfg", "what": w, "value": rng.choice([1, 2, 2, 3, 3, 4, 5, 8])}]
-                v = rnd_pos_float(rng)
+                v = rnd_pos_float(rng, extreme=not (w == "scantime" and cls == "srr"))
                 if w == "scantime" and cls == "srr":
                     st["scantime"] = v
                 return [{"op": "cfg", "what": w, "value": t(v)}]
@@ -1167,6 +1195,13 @@ class C01(Prop):
         yield {**base, "elements": [el("A\x00")], "expect_known": "C01-trailing-nul"}
         yield {**base, "cals": [[0, {**cal0, "unit": "u\x00"}]], "expect_known": "C01-trailing-nul"}
         yield {**base, "cals": [[0, {**cal0, "weights": {"name": "w\x00", "values": []}}]], "expect_known": "C01-trailing-nul"}
+        # SRR layers of different field dtypes: np.savez stacks them into one array of the promoted dtype, the '<f4' layer
+        # loads as '<f8' (same root as C01-srr-byteorder).  Found in extension round E; the case is run as soon as
+        # known_findings.json has an entry with this id (text in notes/EC01.md), until then it is only described there
+        if "C01-srr-layer-dtypes" in self.known_ids():
+            yield {**base, "cls": "srr", "shapes": [[1, 1], [1, 1]], "config": srr,
+                   "elements": [{"name": "A", "dtype": "<f8", "dtypes": ["<f8", "<f4"], "bits": [[t(1.5)], [1069547520]]}],
+                   "expect_known": "C01-srr-layer-dtypes"}
         # outside the quantifier (6a): evaluated, counted as undetermined
         yield {**base, "cals": [[0, {**cal0, "points": [[NAN_Q, NAN_Q], [t(1.0), t(2.0)]], "weights": "x"}]], "excluded": "fully-NaN row"}
         yield {**base, "cals": [[0, {**cal0, "points": [[NAN_Q, NAN_Q], [t(1.0), t(2.0)]], "weights": "Equal"}]], "excluded": "fully-NaN row"}
@@ -1481,6 +1516,16 @@ class C01(Prop):
         els = case["elements"]
         layers = list(obj.data) if case["cls"] == "srr" else [obj.data]
         feats = self.features(case, obj)
+        skip = lambda why: outcome(None, None, None, spec_ok=True, model_ok=True, hyp=False, undetermined=True,  # noqa: E731
+                                   features={"excluded:" + why})
+        floats = [case["config"][k] for k in ("scantime", "warmup") if case["config"]["class"] == "srr"]
+        for st in case["steps"]:
+            if st.get("op") == "cfg" and st["what"] == "warmup":
+                floats.append(st["value"])
+            if st.get("op") == "cfg_assign" and st["config"]["class"] == "srr":
+                floats += [st["config"]["scantime"], st["config"]["warmup"]]
+        if not all(math.isfinite(tokf(x)) for x in floats):   # no exact rational to hand to the model
+            return skip("non-finite-srr-parameter")
         steps_enc = []
         for st in case["steps"]:
             if st["step"] == "op":
@@ -1497,8 +1542,6 @@ class C01(Prop):
             layers=[desc_layer(a) for a in layers], cal=[[cps(els[i]["name"]), enc_cal(c)] for i, c in case["cals"]],
             config=enc_cfg_args(case["config"]), info=[[cps(k), cps(v)] for k, v in case["info"]],
             version=cps(dist_version("pewlib")), time=cps("0.0"), steps=steps_enc)
-        skip = lambda why: outcome(None, None, None, spec_ok=True, model_ok=True, hyp=False, undetermined=True,  # noqa: E731
-                                   features={"excluded:" + why})
         if rep["ctor"] != "ok" or rep["op_failed"]:
             return skip("operation-not-modelled")
         if not rep["determined"]:
@@ -1548,7 +1591,13 @@ class C01(Prop):
         return outcome(impl, model, spec, spec_ok=spec_ok, hyp=hyp, features=feats)
 
     # ------------------------------------------------------------------ known findings
+    @staticmethod
+    def known_ids():
+        return {k["id"] for k in core.load_known() if k.get("property") == "C01" and k.get("kind") == "known"}
+
     def known(self, case, out):
+        if case.get("cls") == "srr" and any("dtypes" in e and len(set(e["dtypes"])) > 1 for e in case["elements"]):
+            return "C01-srr-layer-dtypes"
         if case.get("cls") == "srr" and len({tuple(s) for s in case["shapes"]}) > 1:
             imp = out["impl"]
             if isinstance(imp, dict) and imp.get("raises") == "ValueError":
